@@ -282,3 +282,45 @@ func miscOpAt(c *Compiler) wasm.OpcodeMisc {
 //@   ensures[checks-both-regions] oobChecks() == old(oobChecks())+2
 //@   nosafety keep-pre
 //@   decide-branches
+
+// ---- C20: compiled code reports every way out of a listened function to the listener: the front end
+// emits, before the jump to the return block and before a return instruction, a call through the
+// after-listener trampoline of the function's type.
+func afterCalls() int { return verif_ghost_int("afterCalls") }
+
+func b2i(b bool) int {
+	if b {
+		return 1
+	}
+	return 0
+}
+
+//@ prop C20
+//@ iface (bb ssa.BasicBlock) ReturnBlock() bool
+//@   ensures r0 == verif_ghost_flag("retBlk", bb)
+//@   modifies nothing
+
+//@ func (c *Compiler) callListenerAfter()
+//@   requires c.ssaBuilder != nil && c.wasmFunctionTyp != nil && afterCalls() >= 0 && afterCalls() < 1<<40
+//@   ensures[calls-the-after-trampoline-of-this-function-type] gg("lastOp") == int(ssa.OpcodeCallIndirect) && ssa.IsLoaded(ssa.Value(gg("lastV"))) && ssa.LoadedAt(ssa.Value(gg("lastV"))) == uint64(uint32(c.wasmFunctionTypeIndex)*8) && ssa.IsLoaded(ssa.LoadedFrom(ssa.Value(gg("lastV")))) && ssa.LoadedAt(ssa.LoadedFrom(ssa.Value(gg("lastV")))) == uint64(c.offset.AfterListenerTrampolines1stElement.U32()) && ssa.LoadedFrom(ssa.LoadedFrom(ssa.Value(gg("lastV")))) == c.moduleCtxPtrValue
+//@   ensures[no-bounds-check-involved] oobChecks() == old(oobChecks())
+//@   records afterCalls = old(afterCalls()) + 1
+//@   modifies ghost("*"), obj(c.listenerSignatures[c.wasmFunctionTyp][1])
+//@   nosafety keep-pre
+
+//@ func (c *Compiler) insertJumpToBlock(args ssa.Values, targetBlk ssa.BasicBlock)
+//@   requires c.ssaBuilder != nil && targetBlk != nil && c.wasmFunctionTyp != nil && afterCalls() >= 0 && afterCalls() < 1<<40
+//@   ensures[after-listener-before-leaving-the-function] afterCalls() == old(afterCalls()) + b2i(verif_ghost_flag("retBlk", targetBlk) && c.needListener)
+//@   ensures[no-bounds-check-involved] oobChecks() == old(oobChecks())
+//@   modifies ghost("*"), obj(c.listenerSignatures[c.wasmFunctionTyp][1])
+//@   nosafety keep-pre
+
+//@ func (c *Compiler) nPeekDup(n int) ssa.Values
+//@   trusted
+//@   modifies nothing
+
+//@ case return (c *Compiler) lowerCurrentOpcode()
+//@   requires c.ssaBuilder != nil && c.wasmFunctionTyp != nil && c.loweringState.pc >= 0 && c.loweringState.pc < len(c.wasmFunctionBody) && c.wasmFunctionBody[c.loweringState.pc] == wasm.OpcodeReturn
+//@   requires !c.loweringState.unreachable && c.needListener && afterCalls() >= 0 && afterCalls() < 1<<40
+//@   ensures[after-listener-before-the-return] afterCalls() == old(afterCalls()) + 1
+//@   nosafety keep-pre
